@@ -22,14 +22,19 @@ try:
     rc, out = run(f"git -C /repo worktree add -q --detach {wt} HEAD")
     assert rc == 0, out
     rc, out = run(f"git apply {src}/patch.diff", cwd=wt)
+    if rc != 0:
+        # the change was written against an earlier commit of /repo (before a later fix: commit touched neighbouring lines): merge it
+        rc, out = run(f"git apply --3way {src}/patch.diff", cwd=wt)
+        res["applied_by_3way_merge"] = rc == 0
     res["applies"] = rc == 0
     if rc != 0:
         res["apply_err"] = out[-500:]
     else:
-        rc, out = run(f"/venv/bin/python -W ignore {src}/demo.py", env={"PYTHONPATH": wt}, cwd=wt, timeout=1800)
-        res["demo_mutant_rc"] = rc; res["demo_mutant_tail"] = out[-300:]
-        rc, out = run(f"/venv/bin/python -W ignore {src}/demo.py", env={"PYTHONPATH": "/repo"}, cwd="/repo", timeout=1800)
-        res["demo_clean_rc"] = rc
+        if not os.environ.get("SEEDED_SKIP_DEMO"):
+            rc, out = run(f"/venv/bin/python -W ignore {src}/demo.py", env={"PYTHONPATH": wt}, cwd=wt, timeout=1800)
+            res["demo_mutant_rc"] = rc; res["demo_mutant_tail"] = out[-300:]
+            rc, out = run(f"/venv/bin/python -W ignore {src}/demo.py", env={"PYTHONPATH": "/repo"}, cwd="/repo", timeout=1800)
+            res["demo_clean_rc"] = rc
         if a.suite:
             t = time.time()
             rc, out = run("/venv/bin/python -m pytest -q -p no:cacheprovider --timeout=900 -x tests 2>&1 | tail -3", env={"PYTHONPATH": wt}, cwd=wt, timeout=3600)
